@@ -9,6 +9,8 @@ import shutil
 import numpy as np
 from hypothesis import strategies as st
 
+from mv import hperm
+
 from mv import gen_geom, geom, mf, ref_cif, repl
 from mv.quiet import silenced, workdir
 from mv.runner import EnumPart, HypPart, Violation
@@ -132,7 +134,7 @@ def case(draw):
         opts["replicate"] = draw(st.sampled_from([[2, 1, 1], [1, 2, 1], [1, 1, 2], [2, 1, 2], [1, 2, 2]]))
     if draw(st.booleans()) and infmt != "cml" and cellk == "ortho":
         diag = np.diag(np.array(base["cell"]))
-        ax = draw(st.integers(0, 2))
+        ax = draw(hperm.integers(0, 2))
         # 2 mic / L in (1, 2] along one axis  ->  exactly 2 replicas there
         opts["mic"] = float(diag[ax]) * draw(st.sampled_from([0.55, 0.75, 0.99]))
     if draw(st.booleans()):
@@ -140,10 +142,10 @@ def case(draw):
     if draw(st.booleans()):
         opts["pp"] = True
     outfmt = draw(st.sampled_from(["lmpdat", "lmpdat", "cif"]))
-    if draw(st.integers(0, 4)) == 0 and infmt != "cml":
+    if draw(hperm.integers(0, 4)) == 0 and infmt != "cml":
         opts["framework_element"] = draw(st.sampled_from(["Xe", "Au"]))
         outfmt = "xyz"
-    groups = [draw(st.integers(0, 1)) for _ in base["sels"]]
+    groups = [draw(hperm.integers(0, 1)) for _ in base["sels"]]
     return {"mode": mode, "infmt": infmt, "outfmt": outfmt, "cell": base["cell"], "spos": base["spos"], "sels": base["sels"],
             "groups": groups, "ppos": pat["pos"], "pels": pat["els"], "rpos": rp["pos"], "rels": rp["els"],
             "findfmt": draw(st.sampled_from(["cml", "lmpdat", "cif"])), "replfmt": draw(st.sampled_from(["cml", "lmpdat", "cif"])),
